@@ -145,7 +145,9 @@ func (tff tagFamilyFilter) unmarshal(tagFamilyMetadataBlock *dataBlock, metaRead
 	for _, tm := range tfm.tagMetadata {
 		tf := generateTagFilter()
 		hasMinMax := false
-		if tm.valueType == pbv1.ValueTypeInt64 {
+		// A block written by the merger carries no min/max (and no bloom filter): only a block that recorded
+		// its bounds can be pruned by a range condition.
+		if tm.valueType == pbv1.ValueTypeInt64 && len(tm.min) > 0 && len(tm.max) > 0 {
 			tf.min = tm.min
 			tf.max = tm.max
 			hasMinMax = true
@@ -231,6 +233,10 @@ func (tfs *tagFamilyFilters) Eq(tagName string, tagValue string) bool {
 func (tfs *tagFamilyFilters) Range(tagName string, rangeOpts index.RangeOpts) (bool, error) {
 	for _, tff := range tfs.tagFamilyFilters {
 		if tf, ok := (*tff)[tagName]; ok {
+			if len(tf.min) == 0 || len(tf.max) == 0 {
+				// No bounds recorded for this block, conservatively don't skip
+				continue
+			}
 			if rangeOpts.Lower != nil {
 				lower, ok := rangeOpts.Lower.(*index.FloatTermValue)
 				if !ok {
